@@ -1,6 +1,525 @@
-//! C09 — not built yet.
+//! C09 — the filter parser is total; evaluation terminates.
+//!
+//! input: `<mode> …`
+//!   p H(bytes)        the bytes through `Filter::try_from` (when UTF-8) and through the C entry point
+//!                     `haystack_filter_parse` (a returned filter is destroyed with `haystack_filter_destroy`);
+//!                     both must agree; -> `C09 parse H(text)` (outcome and tree vs the model) for UTF-8
+//!                     texts of at most 4000 bytes
+//!   deep N SHAPE      a text built from N repetitions (N up to 10^5): `(`*N, `(`*N a `)`*N, `not `*N, …;
+//!                     implementation always, model when the text is short
+//!   ev H(text) RECS   evaluate the parsed filter with every record of RECS as the subject, against a
+//!                     resolver over RECS (refs form cycles, chains, self loops); the wildcard loop is
+//!                     also compared with the model: -> `C09 weq …`; the relationship loop: -> `C09 rel …`
+//! A panic is caught by the runner (kind `panic`), a hang by the watchdog (kind `hang`), an abort
+//! (stack overflow) by `check` (kind `abort`); each carries this input as the replay.
+
+use crate::c08::{self, from_or, show_f, T};
 use crate::ctx::{CaseOut, Ctx};
+use crate::rng::Rng;
+use crate::vx::{self, Rd};
+use libhaystack::c_api::filter::{haystack_filter_destroy, haystack_filter_parse};
+use libhaystack::defs::namespace::Namespace;
+use libhaystack::filter::eval::{Eval, EvalContext};
+use libhaystack::filter::nodes::*;
+use libhaystack::filter::path::Path;
+use libhaystack::filter::{Filter, PathResolver};
+use libhaystack::val::*;
+use std::ffi::CString;
+use std::sync::OnceLock;
 
-pub fn exec(_label: &str, _input: &str, _out: &mut CaseOut) {}
+/// the def namespace of the repository's test database (for `^isA` and relationship terms)
+pub fn ns() -> &'static Namespace<'static> {
+    static CELL: OnceLock<&'static Namespace<'static>> = OnceLock::new();
+    CELL.get_or_init(|| {
+        let grid = std::fs::read_to_string("/repo/tests/defs/defs.zinc")
+            .ok()
+            .and_then(|s| libhaystack::encoding::zinc::decode::from_str(&s).ok())
+            .and_then(|v| Grid::try_from(&v).ok())
+            .unwrap_or_default();
+        Box::leak(Box::new(Namespace::make(grid)))
+    })
+}
 
-pub fn generate(_ctx: &mut Ctx) {}
+/// A resolver over a finite record list: a Ref resolves to the first record with that `id`; a path
+/// is walked through nested dicts and through Refs.
+pub struct Recs {
+    pub recs: Vec<Dict>,
+}
+impl PathResolver for Recs {
+    fn resolve_for(&self, root: &Dict, path: &Path) -> Value {
+        if path.is_empty() || root.is_empty() {
+            return Value::Null;
+        }
+        let mut cur: Value = Value::Dict(root.clone());
+        for seg in path.iter() {
+            let name = seg.to_string();
+            cur = match &cur {
+                Value::Dict(d) => d.get(&name).cloned().unwrap_or(Value::Null),
+                Value::Ref(r) => match self.resolve_ref(r) {
+                    Some(d) => d.get(&name).cloned().unwrap_or(Value::Null),
+                    None => Value::Null,
+                },
+                _ => Value::Null,
+            };
+            if cur.is_null() {
+                break;
+            }
+        }
+        cur
+    }
+    fn resolve(&self, _path: &Path) -> Value {
+        Value::Null
+    }
+    fn resolve_ref(&self, reference: &Ref) -> Option<Dict> {
+        self.recs.iter().find(|d| d.get_ref("id") == Some(reference)).cloned()
+    }
+}
+
+/// the C entry point; `Some(printed filter)` when it returned one (which is destroyed here)
+pub fn c_parse(text: &CString) -> Option<String> {
+    unsafe {
+        match haystack_filter_parse(text.as_ptr()) {
+            Some(b) => {
+                let raw = Box::into_raw(b);
+                let printed = (*raw).to_string();
+                haystack_filter_destroy(raw);
+                Some(printed)
+            }
+            None => {
+                // take (and free) the pending error message
+                let msg = libhaystack::c_api::err::last_error_message();
+                if !msg.is_null() {
+                    drop(CString::from_raw(msg as *mut std::os::raw::c_char));
+                }
+                None
+            }
+        }
+    }
+}
+
+fn parse_both(bytes: &[u8], out: &mut CaseOut, with_model: bool) -> Option<Filter> {
+    // the C side sees the bytes up to the first NUL
+    let c_bytes: Vec<u8> = bytes.iter().copied().take_while(|b| *b != 0).collect();
+    let c_text = CString::new(c_bytes.clone()).expect("no interior NUL");
+    let c_res = c_parse(&c_text);
+    match std::str::from_utf8(bytes) {
+        Ok(text) => {
+            let (reply, parsed) = c08::parse_reply(text);
+            out.stat(if parsed.is_some() { "parse:ok" } else { "parse:err" });
+            // what the C entry point was given, through the Rust entry point
+            let c_expect = std::str::from_utf8(&c_bytes).ok().and_then(|t| Filter::try_from(t).ok()).map(|f| f.to_string());
+            if c_res != c_expect {
+                out.fail("c_api_mismatch", format!("haystack_filter_parse gives {c_res:?}, Filter::try_from gives {c_expect:?}"));
+            }
+            if with_model && bytes.len() <= 4000 {
+                out.req(format!("C09 parse {}", vx::hex(bytes)), reply);
+            }
+            parsed
+        }
+        Err(_) => {
+            out.stat("parse:not-utf8");
+            // the valid prefix before a NUL may parse; otherwise the C string is rejected as not UTF-8
+            let c_expect = std::str::from_utf8(&c_bytes).ok().and_then(|t| Filter::try_from(t).ok()).map(|f| f.to_string());
+            if c_res != c_expect {
+                out.fail("c_api_mismatch", format!("haystack_filter_parse gives {c_res:?} on bytes that are not UTF-8; expected {c_expect:?}"));
+            }
+            None
+        }
+    }
+}
+
+pub fn deep_text(n: usize, shape: &str) -> String {
+    let rep = |s: &str| s.repeat(n);
+    match shape {
+        "open" => rep("("),
+        "balanced" => format!("{}a{}", rep("("), rep(")")),
+        "spaced" => format!("{}a{}", rep("( "), rep(" )")),
+        "close" => format!("a{}", rep(")")),
+        "not" => format!("{}a", rep("not ")),
+        "and" => format!("{}a", rep("a and ")),
+        "or" => format!("{}a", rep("a or ")),
+        "andor" => format!("{}a", rep("a and b or ")),
+        "path" => format!("{}a", rep("a->")),
+        "group_and" => format!("{}a{}", rep("(a and "), rep(")")),
+        "group_or" => format!("{}a{}", rep("(b or ("), rep("))")),
+        "cmp" => format!("{}a", rep("a == 1 and ")),
+        "sym" => format!("{}a", rep("^a ")),
+        "minus" => rep("-"),
+        "lt" => rep("<"),
+        "quote" => format!("a == {}", rep("\"")),
+        "rel" => format!("{}a", rep("a? ")),
+        "ws" => format!("{}a", rep(" \n")),
+        _ => rep("a"),
+    }
+}
+pub const SHAPES: &[&str] = &[
+    "open", "balanced", "spaced", "close", "not", "and", "or", "andor", "path", "group_and", "group_or", "cmp", "sym", "minus", "lt", "quote", "rel", "ws", "id",
+];
+
+fn walk_terms<'a>(o: &'a Or, f: &mut dyn FnMut(&'a Term)) {
+    for a in &o.ands {
+        for t in &a.terms {
+            f(t);
+            if let Term::Parens(p) = t {
+                walk_terms(&p.or, f);
+            }
+        }
+    }
+}
+
+fn ho_ref(r: Option<&Ref>) -> String {
+    match r {
+        Some(r) => vx::h(&r.value),
+        None => "-".into(),
+    }
+}
+
+/// request for the model of `Namespace::has_relationship`: everything the loop reads from the
+/// namespace is looked up here through the public API and sent along
+///   rel ISREL TRANSITIVE HASRECIP HASTERM TARGET|- SUBJECT k RECORD*k
+///   RECORD  ::= ID|- n ENTRY*n       ENTRY ::= REF|- RELSYM|- FITS RECIPSYM|- RFITS
+/// (REF = the tag's value when it is a Ref; RELSYM = the symbol the tag's def gives for the
+/// relationship; FITS = does it fit the term; RECIP… likewise for the reciprocal relationship).
+fn rel_request(rel: &Relation, subject_idx: usize, recs: &Recs) -> String {
+    let ns = ns();
+    let rel_sym = Symbol::from(rel.rel.value.as_str());
+    let def = ns.get(&rel_sym);
+    let is_rel = def.is_some() && ns.inheritance(&rel_sym).iter().any(|d| d.get_symbol("def").map(|s| s.value.as_str()) == Some("relationship"));
+    let transitive = def.map_or(false, |d| d.has_marker("transitive"));
+    let recip = def.and_then(|d| d.get_symbol("reciprocalOf")).cloned();
+    let mut toks: Vec<String> = vec![
+        "C09".into(),
+        "rel".into(),
+        (is_rel as u8).to_string(),
+        (transitive as u8).to_string(),
+        (recip.is_some() as u8).to_string(),
+        (rel.rel_term.is_some() as u8).to_string(),
+        ho_ref(rel.ref_value.as_ref()),
+        subject_idx.to_string(),
+        recs.recs.len().to_string(),
+    ];
+    let fits = |s: &Symbol| match &rel.rel_term {
+        Some(t) => ns.fits(s, t),
+        None => true,
+    };
+    for rec in &recs.recs {
+        toks.push(ho_ref(rec.get_ref("id")));
+        toks.push(rec.len().to_string());
+        for (k, v) in rec.iter() {
+            let tag_def = ns.get_by_name(k);
+            toks.push(match v {
+                Value::Ref(r) => vx::h(&r.value),
+                _ => "-".into(),
+            });
+            let rs = tag_def.and_then(|d| d.get(&rel.rel.value)).and_then(|v| match v {
+                Value::Symbol(s) => Some(s.clone()),
+                _ => None,
+            });
+            // a def value that is present but not a Symbol blocks the reciprocal lookup without matching
+            let present_not_sym = tag_def.and_then(|d| d.get(&rel.rel.value)).map_or(false, |v| !v.is_symbol());
+            toks.push(match &rs {
+                Some(s) => vx::h(&s.value),
+                None => if present_not_sym { "!".into() } else { "-".into() },
+            });
+            toks.push(rs.as_ref().map_or(0u8, |s| fits(s) as u8).to_string());
+            let rc = recip.as_ref().and_then(|rc| tag_def.and_then(|d| d.get(&rc.value))).cloned();
+            toks.push(match &rc {
+                Some(Value::Symbol(s)) => vx::h(&s.value),
+                Some(_) => "!".into(),
+                None => "-".into(),
+            });
+            toks.push(match &rc {
+                Some(Value::Symbol(s)) => (fits(s) as u8).to_string(),
+                _ => "0".into(),
+            });
+        }
+    }
+    toks.join(" ")
+}
+
+pub fn exec(_label: &str, input: &str, out: &mut CaseOut) {
+    let (mode, rest) = input.split_once(' ').unwrap_or((input, ""));
+    match mode {
+        "p" => {
+            let bytes = match vx::unhex(rest.trim()) {
+                Some(b) => b,
+                None => {
+                    out.fail("harness", "unparsable hex".into());
+                    return;
+                }
+            };
+            out.nontrivial = !bytes.is_empty();
+            parse_both(&bytes, out, true);
+        }
+        "deep" => {
+            let mut it = rest.split(' ');
+            let n: usize = it.next().and_then(|s| s.parse().ok()).unwrap_or(1);
+            let shape = it.next().unwrap_or("open");
+            let text = deep_text(n, shape);
+            out.nontrivial = true;
+            out.stat(&format!("deep:{}", if n >= 10_000 { "1e4+" } else if n >= 100 { "1e2+" } else { "small" }));
+            parse_both(text.as_bytes(), out, true);
+        }
+        "ev" => {
+            let (hex, recs_txt) = rest.split_once(' ').unwrap_or((rest, ""));
+            let text = match vx::unh(hex) {
+                Some(t) => t,
+                None => {
+                    out.fail("harness", "unparsable filter text".into());
+                    return;
+                }
+            };
+            let mut rd = Rd::new(recs_txt);
+            let k: usize = rd.num().unwrap_or(0);
+            let mut recs = Vec::new();
+            for _ in 0..k {
+                match rd.dict() {
+                    Some(d) => recs.push(d),
+                    None => {
+                        out.fail("harness", "unparsable record".into());
+                        return;
+                    }
+                }
+            }
+            let filter = match Filter::try_from(text.as_str()) {
+                Ok(f) => f,
+                Err(e) => {
+                    out.fail("harness", format!("the evaluation case's filter does not parse: {e}"));
+                    return;
+                }
+            };
+            out.nontrivial = true;
+            let recs = Recs { recs };
+            let ns = ns();
+            let mut hits = 0usize;
+            for rec in &recs.recs {
+                let cx = EvalContext::make(rec, ns, &recs);
+                if filter.eval(&cx) {
+                    hits += 1;
+                }
+            }
+            out.stat(if hits > 0 { "ev:some-match" } else { "ev:no-match" });
+            // the loops with visited sets, one request per (term, subject)
+            let mut terms: Vec<&Term> = Vec::new();
+            walk_terms(&filter.or, &mut |t| terms.push(t));
+            for t in terms {
+                match t {
+                    Term::WildcardEq(w) => {
+                        out.stat("ev:wildcard");
+                        for rec in &recs.recs {
+                            let cx = EvalContext::make(rec, ns, &recs);
+                            let got = w.eval(&cx);
+                            let mut toks: Vec<String> = vec!["C09".into(), "weq".into(), vx::h(&w.ref_value.value)];
+                            vx::w_val(&cx.resolve(&w.id), &mut toks);
+                            toks.push(recs.recs.len().to_string());
+                            for r in &recs.recs {
+                                toks.push(ho_ref(r.get_ref("id")));
+                                toks.push((r.is_empty() as u8).to_string());
+                                vx::w_val(&cx.resolve_for_dict(r, &w.id), &mut toks);
+                            }
+                            out.req(toks.join(" "), format!("ok {}", got as u8));
+                        }
+                    }
+                    Term::Relation(r) => {
+                        out.stat("ev:relation");
+                        for (i, rec) in recs.recs.iter().enumerate() {
+                            let cx = EvalContext::make(rec, ns, &recs);
+                            let got = r.eval(&cx);
+                            out.req(rel_request(r, i, &recs), format!("ok {}", got as u8));
+                        }
+                    }
+                    _ => {}
+                }
+            }
+        }
+        _ => out.fail("harness", format!("unknown mode {mode}")),
+    }
+}
+
+pub fn soup(rng: &mut Rng, n: usize) -> Vec<u8> {
+    const TOKENS: &[&str] = &[
+        " ", "  ", "\n", "\t", "\r\n", "and", "or", "not", "true", "false", "a", "b", "dis", "siteRef", "x1", "(", ")", "((", "))", "->", "-", ">", "=", "==", "!=", "!",
+        "<", "<=", ">", ">=", "*==", "*", "?", "a?", "rel?", "^", "^sym", "^a:b", "^A", "@", "@r", "@r \"d\"", "@r \"", "@ ", "\"", "\"str\"", "\"a\\nb\"", "\"\\q\"",
+        "\"\\u00e9\"", "\"\\u12", "`", "`uri`", "`a\\#b`", "`\\", "0", "1", "12", "-3.5", "1e5", "1E-3", "1e", "1e+", "5kW", "5xyz", "100%", "1_000", "1.2.3", "-", "--1",
+        "-INF", "INF", "NaN", "1e999", "2021-03-04", "2021-13-04", "2021-03", "12:30:00", "12:30", "25:00:00", "12:30:00.123", "12:30:00.", "2021-03-04T12:30:00Z",
+        "2021-03-04T12:30:00Z UTC", "2021-03-04T12:30:00-05:00 New_York", "2021-03-04T12:30:00-05:00 Nowhere", "2021-03-04T", "T", "Z", "é", "\u{1F600}", "$", "_", ".",
+        ":", "/", "+", ",", "[", "]", "{", "}", "N", "M", "a->b", "a -> b", "a->", "->b", "a - > b", "\\", "\u{0}", "\u{7f}",
+    ];
+    let mut out = Vec::new();
+    while out.len() < n {
+        if rng.chance(1, 14) {
+            out.push(rng.below(256) as u8);
+        } else {
+            out.extend_from_slice(rng.pick(TOKENS).as_bytes());
+            if rng.chance(1, 2) {
+                out.push(b' ');
+            }
+        }
+    }
+    out
+}
+
+/// record sets whose refs form chains, cycles and self loops
+pub fn records(rng: &mut Rng) -> Vec<Dict> {
+    let n = 1 + rng.below(6) as usize;
+    let names: Vec<String> = (0..n).map(|i| format!("r{i}")).collect();
+    let ref_tags = ["siteRef", "equipRef", "hotWaterRef", "airRef", "a", "b"];
+    let mut recs = Vec::new();
+    let shape = rng.below(5);
+    for i in 0..n {
+        let mut d = Dict::new();
+        if !rng.chance(1, 12) {
+            d.insert("id".into(), Value::Ref(Ref { value: names[i].clone(), dis: if rng.chance(1, 3) { Some("D".into()) } else { None } }));
+        }
+        for t in ref_tags {
+            if rng.chance(2, 3) {
+                let target = match shape {
+                    0 => names[(i + 1) % n].clone(),                      // one cycle through all records
+                    1 => names[i].clone(),                                // self loops
+                    2 => names[(i + 1).min(n - 1)].clone(),               // chain ending in a self loop
+                    3 => {
+                        if i + 1 < n {
+                            names[i + 1].clone()
+                        } else {
+                            "missing".into()                              // chain into an unresolvable ref
+                        }
+                    }
+                    _ => rng.pick(&names).clone(),                        // arbitrary graph
+                };
+                d.insert(t.into(), Value::Ref(Ref { value: target, dis: None }));
+            }
+        }
+        for m in ["site", "equip", "ahu", "point", "c"] {
+            if rng.chance(1, 3) {
+                d.insert(m.into(), Value::Marker);
+            }
+        }
+        if rng.chance(1, 3) {
+            d.insert("c".into(), Value::Number(Number { value: 1.0, unit: None }));
+        }
+        if rng.chance(1, 6) {
+            let mut inner = Dict::new();
+            inner.insert("b".into(), Value::Ref(Ref { value: rng.pick(&names).clone(), dis: None }));
+            d.insert("a".into(), Value::Dict(inner));
+        }
+        recs.push(d);
+    }
+    if rng.chance(1, 10) {
+        // a second record with the same id; an empty record
+        let mut d = Dict::new();
+        d.insert("id".into(), Value::Ref(Ref { value: names[0].clone(), dis: None }));
+        recs.push(d);
+        recs.push(Dict::new());
+    }
+    recs
+}
+
+pub fn generate(ctx: &mut Ctx) {
+    // operators without operands, unbalanced parentheses, fixed hard cases
+    let fixed: &[&str] = &[
+        "", " ", "\n", "and", "or", "not", "a and", "a or", "and a", "or a", "not not", "not and", "a and and", "a or or b", "a ==", "== 1", "a == ==", "a <", "a <=", "a >",
+        "a *==", "*== @x", "a *== 1", "a *== @x", "a?", "?", "a? ^", "a? ^b", "a? ^b @", "a? @x ^b", "(", ")", "()", "( )", "(a", "a)", "((a)", "(a))", ")(", "(a) b", "( a ) ( b )",
+        "a->", "a->b->", "->", "a - > b", "a-", "a -", "a->5", "a-> ", "a->b -5", "d->b and c", "and ! x", "((a)!", "and \"", "or `", "(a) @", "((a) ^", "not and ! x",
+        "a == @x ", "a == @x  ", "a == @x \"", "a == @x \"d", "a == 1e999", "a == -1e999", "a == 1.7976931348623157e308", "a == 1.7976931348623159e308",
+        "a == 0e999", "a == 1e-999", "a == 17976931348623158e292", "a == -INF", "a == INF", "a == NaN", "a == N", "a == 5xyz", "a == 5kW", "a == 1.2.3", "a == --1", "a == 1e",
+        "a == 2021-02-30", "a == 2021-03-04T25:00:00Z", "a == 2021-03-04T12:30:00-05:00 Nowhere", "a == 12:30:00.", "a == \"\\q\"", "a == \"\\u12G4\"", "a == `\\", "a == ^A",
+        "a == @", "a == true", "a == truex", "a == nottrue", "a == b", "true", "false == true", "a\u{0}b", "a b", "a 1", "1", "\"s\"", "^sym ^sym", "a and (b or c) and not d->e",
+    ];
+    for t in fixed {
+        ctx.case("fixed", &format!("p {}", vx::h(t)));
+    }
+    // valid filters: every prefix, single mutations
+    let nvalid = ctx.n(60, 600);
+    let mut valid: Vec<String> = vec![
+        "site and dis == \"Some site\"".into(),
+        "a->b->c == 1 and not d or (e and f *== @x)".into(),
+        "rel? ^sym @ref and x >= 2021-03-04T12:30:00-05:00 New_York".into(),
+        "a == @x \"Dis \\\"q\\\"\" or b != `http://x/?a=1\\#f` or c < 12:30:00.5 or d > 2021-03-04".into(),
+        "( ( a ) and ( b or ( not c ) ) )".into(),
+        "n <= -1.5e-3kW and m == 100% and k == 1_000".into(),
+    ];
+    while (valid.len() as u64) < nvalid {
+        let mut rng = ctx.rng.fork();
+        let depth = if rng.chance(1, 3) { 1 } else { 0 };
+        let f = c08::tree(&mut rng, depth, &c08::literal);
+        let text = if rng.chance(1, 2) { c08::to_filter(&f).to_string() } else { c08::spell_top(&mut rng, &f).0 };
+        if text.len() < 300 {
+            valid.push(text);
+        }
+    }
+    for v in &valid {
+        let b = v.as_bytes();
+        for k in 0..=b.len() {
+            ctx.case("prefix", &format!("p {}", vx::hex(&b[..k])));
+        }
+    }
+    let n = ctx.n(2500, 150_000);
+    for _ in 0..n {
+        let mut rng = ctx.rng.fork();
+        let v = rng.pick(&valid).clone();
+        let m = if rng.chance(1, 2) {
+            let mut m = c08::mutate_text(&mut rng, &v);
+            if rng.chance(1, 3) {
+                m = c08::mutate_text(&mut rng, &m);
+            }
+            m.into_bytes()
+        } else {
+            // byte level (may break UTF-8)
+            crate::c03::mutate_bytes(&mut rng, v.as_bytes())
+        };
+        ctx.case("mutant", &format!("p {}", vx::hex(&m)));
+    }
+    // token soup over the filter alphabet, random bytes
+    let n = ctx.n(2500, 150_000);
+    for _ in 0..n {
+        let mut rng = ctx.rng.fork();
+        let len = 1 + rng.below(40) as usize;
+        let b: Vec<u8> = if rng.chance(1, 6) { (0..len).map(|_| rng.below(256) as u8).collect() } else { soup(&mut rng, len) };
+        ctx.case(if std::str::from_utf8(&b).is_ok() { "soup" } else { "bytes" }, &format!("p {}", vx::hex(&b)));
+    }
+    // deep nesting and long repetitions, 1 … 10^5
+    let depths: &[usize] = if ctx.quick() { &[1, 10, 63, 64, 65, 100, 1000, 100_000] } else { &[1, 2, 3, 10, 32, 63, 64, 65, 66, 100, 128, 500, 1000, 10_000, 100_000] };
+    for &d in depths {
+        for s in SHAPES {
+            ctx.case("deep", &format!("deep {d} {s}"));
+        }
+    }
+    // evaluation against cyclic resolvers
+    let filters: &[&str] = &[
+        "a->b->c == 1",
+        "a->b->c",
+        "not a->b->c",
+        "a *== @x",
+        "a*==@r0",
+        "siteRef *== @r1",
+        "equipRef *== @missing",
+        "b *== @r2 or a *== @r0",
+        "siteRef->siteRef->siteRef->equipRef->a == 1",
+        "inputs? ^hot-water @r0",
+        "inputs? ^hot-water @missing",
+        "inputs? @r1",
+        "inputs?",
+        "inputs? ^air",
+        "outputs? ^hot-water @r0",
+        "outputs? @r2",
+        "containedBy? ^site @r0",
+        "containedBy? @r1",
+        "contains? @r0",
+        "rel? ^sym @ref",
+        "siteRef? @r0",
+        "( inputs? ^water @r2 ) and not a and b *== @r1",
+        "^site or ^ahu and equipRef->siteRef->c",
+    ];
+    let n = ctx.n(400, 20_000);
+    for i in 0..n {
+        let mut rng = ctx.rng.fork();
+        let recs = records(&mut rng);
+        let f = filters[(i as usize) % filters.len()];
+        let mut toks: Vec<String> = vec!["ev".into(), vx::h(f), recs.len().to_string()];
+        for r in &recs {
+            vx::w_dict(r, &mut toks);
+        }
+        ctx.case("ev", &toks.join(" "));
+    }
+    let _ = (show_f, from_or, T::IsA(String::new()));
+}
